@@ -273,7 +273,11 @@ type c04CLISpec struct {
 	Out  int    `json:"out"` // 0: -o -, 1: -o FILE over an older file, 2: -o FILE that does not exist yet
 }
 
-var c04CLIDocs = []string{`[{"id":1},{"id":2},{"id":3}]`, `[{"id":1}]`, `{"id":1}`, `[[1],[2]]`}
+var c04CLIDocs = []string{`[{"id":1},{"id":2},{"id":3}]`, `[{"id":1}]`, `{"id":1}`, `[[1],[2]]`,
+	// what the binary writes is the JSON text, byte for byte: nothing in it is a directive
+	`[{"50%":"100% %s %d %v %%"},{"id":"a%20b"}]`, `{"k":"\\u003cb\\u003e <&> \u2028 \\n %!(EXTRA"}`}
+var c04CLIElems = []int{3, 1, 1, 2, 2, 1} // elements (array) or 1 (object) of each document
+
 var c04CLIBad = []string{`$`, `/x/`, `num("inf")`, `-num("inf")`, `[$]`, `{k: [1, $]}`}
 
 const c04Stale = "stale content of an earlier run\n"
@@ -346,6 +350,47 @@ func c04CLI(c *fw.Ctx, s c04CLISpec) *fw.Violation {
 	return nil
 }
 
+// ----- json() of a container, the container changed without any assignment, json() again -----
+
+var c04Again = []struct {
+	prog, input string
+	want        []string // the JSON values of the printed lines
+}{
+	{`BEGIN { a = [1, 2]; print json(a); a.push(3); print json(a); a.pop(); a.pop(); print json(a); a.popfirst(); print json(a) }`, "", []string{`[1,2]`, `[1,2,3]`, `[1]`, `[]`}},
+	{`BEGIN { a = [1]; o = {k: a, j: [a]}; print json(o); a.push(2); print json(o); print json(a); a.popfirst(); print json(o) }`, "", []string{`{"k":[1],"j":[[1]]}`, `{"k":[1,2],"j":[[1,2]]}`, `[1,2]`, `{"k":[2],"j":[[2]]}`}},
+	{`BEGIN { seen = {ids: []} } { seen.ids.push($); print json(seen) }`, `[7,8,9]`, []string{`{"ids":[7]}`, `{"ids":[7,8]}`, `{"ids":[7,8,9]}`}},
+	{`{ print json($); $.push(0); print json($); print json([$]) }`, `[[1],[]]`, []string{`[1]`, `[1,0]`, `[[1,0]]`, `[]`, `[0]`, `[[0]]`}},
+	{`function grow(v) { v.push("g") } BEGIN { a = []; print json(a); grow(a); print json(a); grow(a); print json(a) }`, "", []string{`[]`, `["g"]`, `["g","g"]`}},
+	{`BEGIN { a = [[1]]; print json(a); a[0].push(2); print json(a); print json(a[0]); a[0].pop(); print json(a[0]); print json(a) }`, "", []string{`[[1]]`, `[[1,2]]`, `[1,2]`, `[1]`, `[[1]]`}},
+	{`BEGIN { a = [3, 1]; print json(a.sort()); a.push(2); print json(a.sort()); print json(a) }`, "", []string{`[1,3]`, `[1,2,3]`, `[3,1,2]`}},
+}
+
+func c04AgainCheck(c *fw.Ctx, i int) *fw.Violation {
+	cs := c04Again[i]
+	s := drive.Spec{Program: cs.prog}
+	if cs.input != "" {
+		s.Files = []drive.File{{Name: "in.json", Data: cs.input}}
+	}
+	o := run(c, s)
+	c.Traces++
+	c.Transitions += int64(len(cs.want))
+	if o.Kind != drive.KNone {
+		return c04Fail("json() of expressible values failed", s, o, strings.Join(cs.want, "\n"))
+	}
+	st := ParseStream([]byte(o.Stdout))
+	if st.Status != StreamClean || len(st.Values) != len(cs.want) {
+		return c04Fail("json() did not print one valid JSON text per call", s, o, strings.Join(cs.want, "\n"))
+	}
+	for k, w := range cs.want {
+		wn, _ := ParseJSON(w)
+		if !EqualNodes(st.Values[k].Node, wn) {
+			return c04Fail(fmt.Sprintf("json() call %d does not give the value the container has at that moment", k+1), s, o, strings.Join(cs.want, "\n"))
+		}
+	}
+	c.State("json() again after a change without assignment")
+	return nil
+}
+
 func init() {
 	var full, deep, narrow, extra *docGen
 	var sweep []float64
@@ -368,7 +413,7 @@ func init() {
 	fw.Register(&fw.Prop{
 		ID: "C04",
 		Rule: "all JSON trees of depth <= 2 / width <= 2 over 12 scalars, all depth <= 4 / width 1 trees, a structured sweep of doubles, each through json($) and through -o unmodified; narrow documents through 21 sub-document selectors with -o, and changed by 13 mutating programs (push / pop / popfirst, through a callee, an alias, per element, in ENDFILE, stores that create and pad; most without any assignment) with -o compared to the model's root; " +
-			"the real binary with -o - / -o FILE (over an older file, new) on 4 documents whose element k receives one of 6 inexpressible values: non-zero exit, a diagnostic, nothing on stdout and no fragment in the file; " +
+			"7 programs that call json() on a container, change it through push / pop / popfirst / a callee without any assignment and call json() again; the real binary with -o - / -o FILE (over an older file, new) on 6 documents (two full of % directives, escapes and separators) whose element k receives one of 6 inexpressible values: non-zero exit, a diagnostic, nothing on stdout and no fragment in the file; " +
 			"all programs of <= L heap-building statements (cycles, sharing, regex / unset / non-finite members) followed by json() of every variable; oracle: the output parses with an independent RFC 8259 reader to a value equal to the document / the model's value, " +
 			"and a value is refused iff the model's heap has a cycle, regex or non-finite number in it; non-trivial = refusal classes; states = document shape classes, selector outcomes, graph outcome classes",
 		Plan: func(t fw.Tier) int { return docUnits + 1 + 1 + len(c04Ops) },
@@ -410,11 +455,15 @@ func init() {
 				}
 			case u == docUnits+1:
 				c.Do(func() any { return c04Spec{Form: "graph"} }, func() *fw.Violation { return c04Graph(c, nil) })
+				for i := range c04Again {
+					i := i
+					c.Do(func() any { return c04Spec{Form: "again", Sel: i} }, func() *fw.Violation { return c04AgainCheck(c, i) })
+				}
 				for d := range c04CLIDocs {
 					for k := -1; k < 3; k++ {
 						for b := range c04CLIBad {
 							for out := 0; out < 3; out++ {
-								if (k < 0 && b > 0) || (k >= 0 && k >= len(c04CLIDocs[d])/8) {
+								if (k < 0 && b > 0) || (k >= 0 && k >= c04CLIElems[d]) {
 									continue
 								}
 								s := c04CLISpec{Form: "cli", Doc: d, K: k, Bad: b, Out: out}
@@ -471,6 +520,8 @@ func init() {
 			switch s.Form {
 			case "mutated":
 				return c04Mutated(c, s.Doc, s.Sel)
+			case "again":
+				return c04AgainCheck(c, s.Sel)
 			case "doc":
 				return c04Doc(c, s.Doc)
 			case "sel":
